@@ -59,7 +59,7 @@ type VRegionState struct {
 // VStats exposes cache contents for oracles.
 func VStats(cl any) (regions []VRegionState, clients []string) {
 	c := cl.(*client)
-	c.regions.m.RLock()
+	c.regions.m.Lock()
 	enum, err := c.regions.regions.SeekFirst()
 	if err == nil {
 		for {
@@ -76,12 +76,12 @@ func VStats(cl any) (regions []VRegionState, clients []string) {
 		}
 		enum.Close()
 	}
-	c.regions.m.RUnlock()
-	c.clients.m.RLock()
+	c.regions.m.Unlock()
+	c.clients.m.Lock()
 	for rc := range c.clients.regions {
 		clients = append(clients, rc.Addr())
 	}
-	c.clients.m.RUnlock()
+	c.clients.m.Unlock()
 	return
 }
 
